@@ -72,19 +72,24 @@ package vecengine
 //@ // assumed: the persisted branches info (RLP) is what this engine stored for the current validator group
 //@ trusted func (*Engine).getBranchesInfo
 //@   requires vi != nil
-//@   ensures  result == nil || (biwf(result, len(vi.validators.values)) && fresh(result))
+//@   ensures  result == nil || (biwf(result, len(vi.validators.values)) && bilists(result, len(vi.validators.values)) && bisep(result, len(vi.validators.values)) && fresh(result))
 //@ func newInitialBranchesInfo
 //@   requires valid(validators) && len(validators.values) <= 536870911
 //@   ensures  fresh(result) && biwf(result, len(validators.values)) && len(result.BranchIDCreatorIdxs) == len(validators.values)
+//@   ensures  [lists] bilists(result, len(validators.values))
+//@   ensures  [sep] bisep(result, len(validators.values))
 //@   ensures  forall(i, 0, len(validators.values), result.BranchIDCreatorIdxs[i] == i && result.BranchIDLastSeq[i] == 0 && len(result.BranchIDByCreators[i]) == 1 && result.BranchIDByCreators[i][0] == i)
 //@   loop 1 invariant 0 <= _k && _k <= len(branchIDCreators) && len(branchIDCreatorIdxs) == len(branchIDCreators) && forall(i, 0, _k, branchIDCreatorIdxs[i] == i)
 //@   loop 2 invariant 0 <= _k && _k <= len(branchIDByCreators) && forall(i, 0, _k, len(branchIDByCreators[i]) == 1 && branchIDByCreators[i][0] == i)
 //@   loop 2 invariant forall(i, 0, _k, !arrfresh(branchIDByCreators[i], _alloc) && arrfresh(branchIDByCreators[i], old(_alloc)))
+//@   loop 2 invariant forall(c, 0, _k, forall(d, 0, _k, c != d ==> arrof(branchIDByCreators[c]) != arrof(branchIDByCreators[d])))
+//@   loop 2 invariant forall(c, 0, _k, arrof(branchIDByCreators[c]) != arrof(branchIDCreatorIdxs) && arrof(branchIDByCreators[c]) != arrof(branchIDLastSeq) && arrof(branchIDByCreators[c]) != arrof(branchIDByCreators))
+//@   loop 2 invariant arrof(branchIDCreatorIdxs) != arrof(branchIDLastSeq) && forall(i, 0, len(branchIDCreatorIdxs), branchIDCreatorIdxs[i] == i && branchIDLastSeq[i] == 0)
 //@ func (*Engine).InitBranchesInfo
 //@   requires vi != nil && valid(vi.validators) && len(vi.validators.values) <= 536870911
 //@   modifies vi.bi
 //@   ensures  old(vi.bi) != nil ==> vi.bi == old(vi.bi)
-//@   ensures  old(vi.bi) == nil ==> biwf(vi.bi, len(vi.validators.values))
+//@   ensures  old(vi.bi) == nil ==> biwf(vi.bi, len(vi.validators.values)) && bilists(vi.bi, len(vi.validators.values)) && bisep(vi.bi, len(vi.validators.values))
 //@
 //@ // ---- the vector interfaces have one implementation (package vecfc); every call is checked to be on it and is
 //@ // then specified by the concrete method's contract ----
@@ -104,6 +109,12 @@ package vecengine
 //@
 //@ // branch lists: every listed branch exists and belongs to the creator it is listed under
 //@ spec bilists(bi *BranchesInfo, n int) bool = forall(c, 0, n, forall(j, 0, len(bi.BranchIDByCreators[c]), bi.BranchIDByCreators[c][j] < len(bi.BranchIDCreatorIdxs) && bi.BranchIDCreatorIdxs[bi.BranchIDByCreators[c][j]] == c))
+//@
+//@ // bisep: the slices of the branches info do not share storage (each was allocated on its own)
+//@ spec bisep(bi *BranchesInfo, n int) bool = (arrof(bi.BranchIDLastSeq) != arrof(bi.BranchIDCreatorIdxs) || arrof(bi.BranchIDLastSeq) == 0) &&
+//@   forall(c, 0, n, (arrof(bi.BranchIDByCreators[c]) != arrof(bi.BranchIDCreatorIdxs) && arrof(bi.BranchIDByCreators[c]) != arrof(bi.BranchIDLastSeq)) || arrof(bi.BranchIDByCreators[c]) == 0) &&
+//@   forall(c, 0, n, forall(d, 0, n, c != d ==> arrof(bi.BranchIDByCreators[c]) != arrof(bi.BranchIDByCreators[d]) || arrof(bi.BranchIDByCreators[c]) == 0)) &&
+//@   forall(c, 0, n, !arrfresh(bi.BranchIDByCreators[c], _alloc))
 //@
 //@ // setForkDetected marks every branch of the creator of branchID as fork in the vector
 //@ func (*Engine).setForkDetected
@@ -146,3 +157,22 @@ package vecengine
 //@   loop 1 invariant [f] !arrfresh(hv(scatteredBefore), _loopalloc)
 //@   loop 1 invariant forall(j int, j >= 0 ==> hbSeq(hv(scatteredBefore), j) == atentry(hbSeq(hv(scatteredBefore), j)) && hbMin(hv(scatteredBefore), j) == atentry(hbMin(hv(scatteredBefore), j)))
 //@   loop 1 invariant forall(c, 0, _k, (gfork(hv(scatteredBefore), _range[c], len(_range[c])) ==> hbFork(hv(mergedBefore), c)) && (!gfork(hv(scatteredBefore), _range[c], len(_range[c])) ==> hbSeq(hv(mergedBefore), c) == gmax(hv(scatteredBefore), _range[c], len(_range[c]))))
+//@
+//@ // fillGlobalBranchID: the event continues its self-parent's branch exactly when its sequence number is the branch's
+//@ // last one plus one (a first event continues the creator's own branch exactly when that branch is still empty);
+//@ // otherwise a new branch of the creator is opened (a fork, seen globally)
+//@ func (*Engine).fillGlobalBranchID
+//@   requires vi != nil && valid(vi.validators) && biwf(vi.bi, len(vi.validators.values)) && len(vi.bi.BranchIDCreatorIdxs) < 536870911 && bilists(vi.bi, len(vi.validators.values)) && bisep(vi.bi, len(vi.validators.values)) && e != nil && meIdx < len(vi.validators.values)
+//@   requires e.SelfParent() != nil ==> gBranchOf[deref(e.SelfParent())] < len(vi.bi.BranchIDCreatorIdxs)
+//@   modifies vi.bi.BranchIDLastSeq, vi.bi.BranchIDLastSeq[*], vi.bi.BranchIDCreatorIdxs, vi.bi.BranchIDCreatorIdxs[*], vi.bi.BranchIDByCreators[meIdx], vi.bi.BranchIDByCreators[meIdx][*]
+//@   ensures  [noerr] result1 == nil && biwf(vi.bi, len(vi.validators.values))
+//@   ensures  [sep] bisep(vi.bi, len(vi.validators.values))
+//@   ensures  [lists] bilists(vi.bi, len(vi.validators.values)) && forall(c, 0, len(vi.validators.values), c != meIdx ==> vi.bi.BranchIDByCreators[c] == old(vi.bi.BranchIDByCreators[c]))
+//@   ensures  [first] e.SelfParent() == nil && old(vi.bi.BranchIDLastSeq[meIdx]) == 0 ==> result0 == meIdx && vi.bi.BranchIDLastSeq[meIdx] == e.Seq() && len(vi.bi.BranchIDCreatorIdxs) == old(len(vi.bi.BranchIDCreatorIdxs))
+//@   ensures  [next] e.SelfParent() != nil && (old(vi.bi.BranchIDLastSeq[gBranchOf[deref(e.SelfParent())]]) + 1) % 4294967296 == e.Seq() ==> result0 == gBranchOf[deref(e.SelfParent())] && vi.bi.BranchIDLastSeq[result0] == e.Seq() && len(vi.bi.BranchIDCreatorIdxs) == old(len(vi.bi.BranchIDCreatorIdxs))
+//@   ensures  [fork1] !(e.SelfParent() == nil && old(vi.bi.BranchIDLastSeq[meIdx]) == 0) && !(e.SelfParent() != nil && (old(vi.bi.BranchIDLastSeq[gBranchOf[deref(e.SelfParent())]]) + 1) % 4294967296 == e.Seq()) ==> result0 == old(len(vi.bi.BranchIDCreatorIdxs)) && len(vi.bi.BranchIDCreatorIdxs) == old(len(vi.bi.BranchIDCreatorIdxs)) + 1
+//@   ensures  [fork2] !(e.SelfParent() == nil && old(vi.bi.BranchIDLastSeq[meIdx]) == 0) && !(e.SelfParent() != nil && (old(vi.bi.BranchIDLastSeq[gBranchOf[deref(e.SelfParent())]]) + 1) % 4294967296 == e.Seq()) ==> vi.bi.BranchIDCreatorIdxs[result0] == meIdx
+//@   ensures  [fork3] !(e.SelfParent() == nil && old(vi.bi.BranchIDLastSeq[meIdx]) == 0) && !(e.SelfParent() != nil && (old(vi.bi.BranchIDLastSeq[gBranchOf[deref(e.SelfParent())]]) + 1) % 4294967296 == e.Seq()) ==> vi.bi.BranchIDLastSeq[result0] == e.Seq()
+//@   ensures  [fork4] !(e.SelfParent() == nil && old(vi.bi.BranchIDLastSeq[meIdx]) == 0) && !(e.SelfParent() != nil && (old(vi.bi.BranchIDLastSeq[gBranchOf[deref(e.SelfParent())]]) + 1) % 4294967296 == e.Seq()) ==> len(vi.bi.BranchIDByCreators[meIdx]) == old(len(vi.bi.BranchIDByCreators[meIdx])) + 1 && vi.bi.BranchIDByCreators[meIdx][len(vi.bi.BranchIDByCreators[meIdx]) - 1] == result0
+//@   ensures  [fork5] !(e.SelfParent() == nil && old(vi.bi.BranchIDLastSeq[meIdx]) == 0) && !(e.SelfParent() != nil && (old(vi.bi.BranchIDLastSeq[gBranchOf[deref(e.SelfParent())]]) + 1) % 4294967296 == e.Seq()) ==> forall(j, 0, old(len(vi.bi.BranchIDByCreators[meIdx])), vi.bi.BranchIDByCreators[meIdx][j] == old(vi.bi.BranchIDByCreators[meIdx][j]))
+//@   ensures  [kept] forall(br, 0, old(len(vi.bi.BranchIDCreatorIdxs)), vi.bi.BranchIDCreatorIdxs[br] == old(vi.bi.BranchIDCreatorIdxs[br]) && (br != result0 ==> vi.bi.BranchIDLastSeq[br] == old(vi.bi.BranchIDLastSeq[br])))
